@@ -219,7 +219,21 @@ func genScenario(t *rapid.T, deg bool) *Scenario {
 		}
 	}
 	sc.Loads = rapid.SliceOfN(rapid.Custom(func(t *rapid.T) Load { return genLoad(t, deg) }), 1, 12).Draw(t, "loads")
+	// (drawn last: everything above is drawn exactly as it was before this dimension existed)
+	sc.Unset = genUnset(t)
 	return sc
+}
+
+// consumerShapes: the subsets of {Add, Update, Delete} a consumer registers,
+// written as the callbacks it leaves nil (Scenario.Unset).
+var consumerShapes = []string{"", "ud", "d", "u", "au", "ad", "a", "aud"}
+
+// genUnset draws the shape of the consumer: all three callbacks in half of the
+// cases (only there the replay oracle applies), otherwise one of the seven
+// proper subsets - Add only, Add+Update, Add+Delete, Update only, Delete only,
+// Update+Delete, none.
+func genUnset(t *rapid.T) string {
+	return consumerShapes[choose(t, "consumer", 10, 2, 2, 2, 1, 1, 1, 1)]
 }
 
 // Parts ------------------------------------------------------------------------
